@@ -135,6 +135,23 @@ fn drive(conn: &mut HttpConnection<UnixStream>, tx: &mut UnixStream, segs: &[Vec
         drain_reqs(conn, &mut o.delivered);
         if stop { break; }
     }
+    // everything written is in the socket; a would-block here must be genuine, but be robust against a spurious one:
+    // a few more reads that must all find nothing
+    if o.error.is_none() {
+        for _ in 0..3 {
+            match conn.try_read() {
+                Ok(()) => { drain_reqs(conn, &mut o.delivered); }
+                Err(e) => {
+                    let k = err_kind(&e);
+                    if k != "StreamReadError" {
+                        drain_reqs(conn, &mut o.delivered);
+                        o.error = Some(k);
+                        break;
+                    }
+                }
+            }
+        }
+    }
     // what has been queued for writing: write it out and parse status lines
     let mut wire = vec![];
     let _ = tx.set_nonblocking(true);
@@ -490,11 +507,20 @@ fn search_c06(budget: usize) {
                 expect_sent = true;
                 let mut peer = &_b;
                 peer.write_all(b"PUT /e HTTP/1.1\r\nExpect: 100-continue\r\nContent-Length: 3\r\n\r\n").unwrap();
-                let _ = c.try_read();
-                let mut ser = vec![];
-                Response::new(Version::Http11, StatusCode::Continue).write_all(&mut ser).unwrap();
-                expect.extend(ser);
-                log.push("read(Expect request)".to_string());
+                // the bytes are in the socket; should the (non-blocking) receive nevertheless report would-block, retry
+                let mut rr = c.try_read();
+                let mut tries = 0;
+                while matches!(rr, Err(micro_http::ConnectionError::StreamReadError(_))) && tries < 50 {
+                    std::thread::sleep(std::time::Duration::from_millis(2));
+                    rr = c.try_read();
+                    tries += 1;
+                }
+                if rr.is_ok() {
+                    let mut ser = vec![];
+                    Response::new(Version::Http11, StatusCode::Continue).write_all(&mut ser).unwrap();
+                    expect.extend(ser);
+                }
+                log.push(format!("read(Expect request)->{}", match &rr { Ok(()) => "Ok".to_string(), Err(e) => err_kind(e) }));
                 continue;
             }
             if queued < nresp && rng.chance(35) {
